@@ -182,7 +182,18 @@ def gen_case(rnd, prop, tier):
             for a in attrs:
                 if not any(a in w for w in wl):
                     wl.append([a, rnd.choice([x for x in attrs if x != a])] if d > 1 else [a])
-        params = dict(rounds=rnd.choice([d, d + 1, 2 * d, 6, 8]) if rnd.random() < 0.9 else rnd.choice([1, 2]), max_model_size=rnd.choice([80, 80, 1e-4, 3e-4]),
+        zeros = None
+        if d >= 2 and rnd.random() < 0.3:
+            zc = rnd.sample(attrs, 2)
+            zi = [attrs.index(a) for a in zc]
+            present = {(r[zi[0]], r[zi[1]]) for r in recs}
+            cells = [[i, j] for i in range(sizes[zi[0]]) for j in range(sizes[zi[1]]) if (i, j) not in present]
+            if cells:
+                zeros = [zc, rnd.sample(cells, rnd.randint(1, len(cells)))]
+                if adj == 'add' and rnd.random() < 0.6:
+                    cell = rnd.choice(zeros[1])
+                    newrec[zi[0]], newrec[zi[1]] = cell[0], cell[1]      # the extra record of the neighbour sits in a declared-impossible cell
+        params = dict(zeros=zeros, rounds=rnd.choice([d, d + 1, 2 * d, 6, 8]) if rnd.random() < 0.9 else rnd.choice([1, 2]), max_model_size=rnd.choice([80, 80, 1e-4, 3e-4]),
                       workload=[[w, rnd.choice([1.0, 1.0, 2.0, 0.5])] for w in wl])
     elif mech == 'mwem':
         import itertools
@@ -262,10 +273,13 @@ def execute(case, mod, data, rng):
             if mech == 'mst':
                 out = mod.MST(data, case['eps'], case['delta'])
             elif mech == 'aim':
+                kw = {}
+                if p.get('zeros'):
+                    kw['structural_zeros'] = {tuple(p['zeros'][0]): [tuple(c) for c in p['zeros'][1]]}
                 if case.get('aim_prng'):
-                    m = mod.AIM(case['eps'], case['delta'], prng=rng, rounds=p['rounds'], max_model_size=p['max_model_size'])
+                    m = mod.AIM(case['eps'], case['delta'], prng=rng, rounds=p['rounds'], max_model_size=p['max_model_size'], **kw)
                 else:
-                    m = mod.AIM(case['eps'], case['delta'], rounds=p['rounds'], max_model_size=p['max_model_size'])
+                    m = mod.AIM(case['eps'], case['delta'], rounds=p['rounds'], max_model_size=p['max_model_size'], **kw)
                 m.prng = rng
                 out = m.run(data, [(tuple(w), wt) for w, wt in p['workload']])
             elif mech == 'mwem':
@@ -435,6 +449,8 @@ def run_case(case, prop):
     faults['neighbour-' + case['adj']] = 1
     if case.get('weights'):
         faults['weighted-records'] = 1
+    if case['params'].get('zeros'):
+        faults['aim-structural-zeros'] = 1
     trace = [(e['kind'], e['n'], None if e['kind'] not in ('normal', 'laplace') else float('%.3g' % float(np.max(np.asarray(e['scale']))))) for e in evA][:60]
     pclass = (case['eps'], case['delta'], case['params'].get('rounds'), case['params'].get('noise'), case['params'].get('bounded'))
     measure = [mech, case['adj'], pclass, trace]
